@@ -373,8 +373,12 @@ func (fc *FnCtx) exec(st *State, s ast.Stmt, label string) []Outcome {
 	case *ast.LabeledStmt:
 		return fc.exec(st, s.Stmt, s.Label.Name)
 	case *ast.ForStmt:
+		fc.inLoop++
+		defer func() { fc.inLoop-- }()
 		return fc.execFor(st, s, label)
 	case *ast.RangeStmt:
+		fc.inLoop++
+		defer func() { fc.inLoop-- }()
 		return fc.execRange(st, s, label)
 	case *ast.SwitchStmt:
 		return fc.execSwitch(st, s, label)
@@ -890,6 +894,7 @@ func (fc *FnCtx) execFor(st *State, s *ast.ForStmt, label string) []Outcome {
 	fc.havocLoop(h, &ast.BlockStmt{List: stmtsOf(s.Body, s.Post)}, nil)
 	_ = loopNodes
 	fc.assumeInvs(h, n, nil)
+	h.latchSeen = false // wakeup clause: every iteration has to consult the latch itself before it may sleep
 	var rest []Outcome
 	cond := "true"
 	if s.Cond != nil {
@@ -1251,6 +1256,23 @@ func (fc *FnCtx) execTypeSwitch(st *State, s *ast.TypeSwitchStmt, label string) 
 }
 
 func (fc *FnCtx) execSelect(st *State, s *ast.SelectStmt, label string) []Outcome {
+	if w := fc.wakeupExpr(); w != "" {
+		for _, c := range s.Body.List {
+			cc := c.(*ast.CommClause)
+			var ue *ast.UnaryExpr
+			switch cm := cc.Comm.(type) {
+			case *ast.ExprStmt:
+				ue, _ = ast.Unparen(cm.X).(*ast.UnaryExpr)
+			case *ast.AssignStmt:
+				if len(cm.Rhs) == 1 {
+					ue, _ = ast.Unparen(cm.Rhs[0]).(*ast.UnaryExpr)
+				}
+			}
+			if ue != nil && ue.Op == token.ARROW && normText(exprText(ue.X)) == w {
+				st.latchSeen = true
+			}
+		}
+	}
 	var outs []Outcome
 	for _, c := range s.Body.List {
 		cc := c.(*ast.CommClause)
@@ -1365,4 +1387,14 @@ func (fc *FnCtx) heapAtHead(n int, k, before string) string {
 		return h
 	}
 	return before
+}
+
+func normText(s string) string { return strings.Join(strings.Fields(s), "") }
+
+// wakeupExpr: the wake-up channel expression of the contract under verification ("" if none)
+func (fc *FnCtx) wakeupExpr() string {
+	if r := fc.root(); r.ct != nil && r.ct.Wakeup != "" {
+		return normText(r.ct.Wakeup)
+	}
+	return ""
 }
